@@ -152,7 +152,7 @@ func Run(c *vh.Ctx) {
 		return
 	}
 	if os.Getenv("C06_ONLY") == "pl" { // development: the scalar-payload stream alone
-		n := r.plEnumerate(c.Thorough(), c.Rand, c.N(6000, 60000))
+		n := r.plEnumerate(c.Thorough(), c.Rand, c.N(3000, 60000))
 		c.Note("scalar payloads only: %d cases", n)
 		return
 	}
@@ -240,12 +240,12 @@ func Run(c *vh.Ctx) {
 	if tooManyCrashes() {
 		return
 	}
-	nPL := r.plEnumerate(c.Thorough(), c.Rand, c.N(6000, 60000))
+	nPL := r.plEnumerate(c.Thorough(), c.Rand, c.N(3000, 60000))
 	if tooManyCrashes() {
 		return
 	}
 	c.Res.Exhaustive = true
-	c.Res.ExhaustiveWhat = fmt.Sprintf("all %d applicable (shape x route x mutation x side) triples of the catalogue against model and oracle; all %d keyed-literal triples against the oracle; %d intended-sharing expectations; %d composite-route cases (owner x producer expression x by-value sink x mutation x shape) against the oracle; %d scalar-payload cases (element kind x container shape x copy route x mutation form x written side: all for string lists, all along plain assignment, all under `.=`; thorough: all for string and mixed elements and for lists) against the oracle", nTriples, nKV, len(shareCases), nX, nPL)
+	c.Res.ExhaustiveWhat = fmt.Sprintf("all %d applicable (shape x route x mutation x side) triples of the catalogue against model and oracle; all %d keyed-literal triples against the oracle; %d intended-sharing expectations; %d composite-route cases (owner x producer expression x by-value sink x mutation x shape) against the oracle; %d scalar-payload cases (element kind x container shape x copy route x mutation form x written side: all for string lists and int lists, all along plain assignment, all under `.=`, all with the payload shared with a scalar variable; thorough: all for string and mixed elements and for lists) against the oracle", nTriples, nKV, len(shareCases), nX, nPL)
 
 	// ---- 2. seeded programs, writes at depth 1 only (the discipline of the _partial theorem)
 	g := &gen{r: c.Rand, nv: 4}
